@@ -65,11 +65,11 @@ func gaugeValue(name string) float64 {
 }
 
 type c11Case struct {
-	transport string // ws | legacy
-	stage     int    // 0 nothing sent, 1 after handshake, 2 after tunnel create, 3 after tunnel auth, 4 channel refused (dial fails), 5 channel open, 6 opened (one payload), 7 host streaming, 8 client streaming, 9 both
-	cause     string // close order frame dropws dropin dropout
-	reset     bool   // TCP reset instead of an orderly close
-	politeHost bool  // the host closes when it sees end of stream
+	transport  string // ws | legacy
+	stage      int    // 0 nothing sent, 1 after handshake, 2 after tunnel create, 3 after tunnel auth, 4 channel refused (dial fails), 5 channel open, 6 opened (one payload), 7 host streaming, 8 client streaming, 9 both
+	cause      string // close order frame dropws dropin dropout
+	reset      bool   // TCP reset instead of an orderly close
+	politeHost bool   // the host closes when it sees end of stream
 }
 
 func (c c11Case) String() string {
